@@ -7,7 +7,11 @@ void harness(void)
 {
         size_t cap = h_setup_buffers();
         (void)cap;
+#ifdef FIX_FSM
+        int f = FIX_FSM;   /* one job per machine: the conditional frames then fold to constants */
+#else
         int f = nondet_int();
+#endif
         cat_fsm_type fsm = (cat_fsm_type)f;
         h_setup_var_f(CAT_VAR_BUF_STRING, fsm);
         h_obj.position = nondet_size();
@@ -16,8 +20,10 @@ void harness(void)
         if (f == CAT_FSM_TYPE_ATCMD || f == CAT_FSM_TYPE_UNSOLICITED) {
                 size_t p = (f == CAT_FSM_TYPE_ATCMD) ? h_obj.position : h_obj.unsolicited_fsm.position;
                 size_t c = (f == CAT_FSM_TYPE_ATCMD) ? CAP_AT(&h_obj) : CAP_UN(&h_obj);
-                if (g_k < p && p <= c)
-                        g_oldtext = BUFF(&h_obj, fsm)[g_k];
+                g_pfx1 = nondet_size();
+                if (g_pfx1 <= p && p <= c && g_k < g_pfx1)
+                        g_oldtext1 = BUFF(&h_obj, fsm)[g_k];
+                g_pfx = g_pfx1; g_oldtext = g_oldtext1;
         }
         format_buffer_string(&h_obj, fsm);
         __CPROVER_assert(0, "CANARY end of harness reachable");
